@@ -1,11 +1,23 @@
 #!/bin/bash
-# Runs a check against /repo with one seeded breaking change applied, then restores /repo.
+# Runs a check against the library with one seeded breaking change applied.
+# Works on scratch copies only (so it can run next to sweeps and in parallel): a copy of /repo's working tree with the
+# patch applied, and a copy of the checks whose go.mod points at it. Both are removed afterwards.
 # usage: tools/seedrun.sh <seeded-dir-name> <Cxx> [quick|thorough]
+#   VERIF_DIR=<dir>: take the checks from that copy of /verif instead (an earlier state: the "before extension" runs)
 set -u
+export GOFLAGS=-mod=mod GOPROXY=off GOSUMDB=off GOTOOLCHAIN=local
 S=/verif/seeded/$1; [ -d "$S" ] || S=/verif/mutants/$1; P=$2; T=${3:-quick}
-[ -z "$(git -C /repo status --porcelain --untracked-files=no)" ] || { echo "/repo is not clean"; exit 2; }
-git -C /repo apply $S/patch.diff || exit 2
-cd /verif && ./run.sh $P $T > out/seedrun-$1-$P.log 2>&1; rc=$?
-git -C /repo checkout -- . ; git -C /repo clean -fdq -- tensor component   # files a patch ADDED are untracked: remove them too
-echo "$1 vs $P $T: exit=$rc $(grep -c '^VIOLATION' out/seedrun-$1-$P.log) VIOLATION lines; $(grep -m1 -A1 '^VIOLATION' out/seedrun-$1-$P.log | tail -1 | cut -c1-220)"
+SRC=${VERIF_DIR:-/verif}
+W=$(mktemp -d /tmp/seedrun.XXXXXX); R=$W/repo; V=$W/verif
+trap 'rm -rf "$W"' EXIT
+rsync -a --exclude .git /repo/ $R/
+rsync -a --exclude .git --exclude out --exclude bin --exclude seeded --exclude mutants $SRC/ $V/
+(cd $R && git apply $S/patch.diff) || { echo "$1: patch does not apply"; exit 2; }
+sed -i "s|=> /repo|=> $R|" $V/go.mod
+sed -i "s|cp -f /repo/go.sum|cp -f $R/go.sum|" $V/run.sh
+mkdir -p /verif/out
+L=/verif/out/seedrun-$1-$P.log
+(cd $V && ./run.sh $P $T) > $L 2>&1; rc=$?
+sed -i "s|$V|/verif|g" $L
+echo "$1 vs $P $T: exit=$rc $(grep -c '^VIOLATION' $L) VIOLATION lines; $(grep -m1 -A1 '^VIOLATION' $L | tail -1 | cut -c1-220)"
 exit $rc
